@@ -241,8 +241,9 @@ impl AtomicUsize {
             None => self.0.compare_exchange_weak(current, new, success, failure),
             Some(r) => {
                 r.point(Op::CasWeak, self.addr());
-                // never fails spuriously unless the harness injects it
-                if r.spurious_cas_failure(self.addr()) {
+                // never fails spuriously unless the harness injects it, and
+                // the harness is only asked where the operation would succeed
+                if self.0.load(Ordering::Relaxed) == current && r.spurious_cas_failure(self.addr()) {
                     let v = self.0.load(failure);
                     r.done(Op::CasWeak, self.addr(), v, false);
                     return Err(v);
